@@ -89,11 +89,17 @@ def add_like_cells(d, rng, n=None, chain_p=0.5, keys=None, multi_p=0.35):
                 c.hints.pop('fill_star', None)
                 opts.append('fill=%d' % c.fill['u'])
         if not opts:
-            c.imp = 1 if base.imp != 1 else 2
             if 'imp_parts' in c.hints:
-                c.hints['imp_parts'] = {'n': c.imp, 'p': c.hints['imp_parts']['p'] if c.hints['imp_parts']['p'] <= c.imp else 0}
-                c.hints['imp_text'] = imp_text(c.hints['imp_parts'], rng)
-            opts.append('imp:n=%s' % D.fnum(c.imp))
+                # only the neutron importance is overridden: the other particle types keep what the copied cell has
+                parts = dict(c.hints['imp_parts'])
+                parts['n'] = 1 if parts.get('n') != 1 else 2
+                c.hints['imp_parts'] = parts
+                c.hints['imp_text'] = imp_text(parts, rng)
+                c.imp = max(parts.values())
+                opts.append('imp:n=%s' % D.fnum(parts['n']))
+            else:
+                c.imp = 1 if base.imp != 1 else 2
+                opts.append('imp:n=%s' % D.fnum(c.imp))
         rng.shuffle(opts)
         kw = rng.choice(['like', 'LIKE', 'Like'])
         bt = rng.choice(['but', 'BUT'])
